@@ -290,7 +290,9 @@ pub fn positive(rng: &mut StdRng, starts: &mut gen::Starts, rep: &mut Report) {
 /// lines with an injected fault of a listed class: must parse to Err
 pub fn negative(rng: &mut StdRng, starts: &mut gen::Starts, rep: &mut Report) {
     let bad_move = |rng: &mut StdRng| -> String {
-        ["i2e4", "e2e9", "e2e", "e2", "e", "e2e4x", "E2E4", "e2e0", "22e4", "a1a9", "é2e4", "e2é4", "----", "e2e4٣"].choose(rng).unwrap().to_string()
+        ["i2e4", "e2e9", "e2e", "e2", "e", "e2e4x", "E2E4", "e2e0", "22e4", "a1a9", "é2e4", "e2é4", "----", "e2e4٣",
+         // characters that Unicode case mapping or digit classes fold onto ASCII ones: not UCI move text
+         "e7e8\u{212A}", "e7e8ｑ", "e7e8Ｑ", "e7ｅ8", "e7e８", "a7a8ſ", "a7a8ı", "\u{212A}7e8", "e7e8\u{0130}", "e7e8\u{1E9E}"].choose(rng).unwrap().to_string()
     };
     let bad_num = |rng: &mut StdRng| -> String { ["x", "1.5", "", "١٢", "1e3", "0x10", "99999999999999999999999", "--1", "1_000"].choose(rng).unwrap().to_string() };
     let p = starts.next(rng);
@@ -353,13 +355,26 @@ pub fn fuzz(rng: &mut StdRng, starts: &mut gen::Starts, rep: &mut Report) {
         rep.violation(&format!("parse-{}", panic_sig(&pm)), format!("parser panicked on {:?}: {}", line.chars().take(200).collect::<String>(), pm), json!({"kind":"c15-line","line":line}));
     }
     // move tokens on their own
-    let tok = match rng.gen_range(0..3) { 0 => strgen::random_utf8(rng, 6), 1 => strgen::mutate(rng, "e7e8q", b"abcdefgh12345678qrbnkABCH09"), _ => line.split(' ').next().unwrap_or("").to_string() };
+    let tok = match rng.gen_range(0..4) {
+        0 => strgen::random_utf8(rng, 6),
+        1 => strgen::mutate(rng, "e7e8q", b"abcdefgh12345678qrbnkABCH09"),
+        2 => {
+            // a well-formed move with one character replaced by a look-alike that case mapping / digit
+            // classes fold onto an ASCII letter or digit
+            let base: Vec<char> = format!("{}{}{}{}{}", (b'a' + rng.gen_range(0..8u8)) as char, rng.gen_range(1..9), (b'a' + rng.gen_range(0..8u8)) as char, rng.gen_range(1..9), ["", "q", "r", "b", "n", "k", "p"].choose(rng).unwrap()).chars().collect();
+            let i = rng.gen_range(0..base.len());
+            let c = *['\u{212A}', '\u{212B}', '\u{017F}', '\u{0131}', '\u{0130}', 'ｑ', 'Ｑ', 'ｋ', 'Ｋ', 'ｅ', '８', '１', '٣', '\u{1E9E}', 'ǅ', 'ß'].choose(rng).unwrap();
+            base.iter().enumerate().map(|(j, x)| if j == i { c } else { *x }).collect()
+        }
+        _ => line.split(' ').next().unwrap_or("").to_string(),
+    };
+    if !tok.is_ascii() { rep.count("move_tokens_non_ascii"); }
     rep.eval();
     match guarded(|| UciMove::from_str(&tok).map(|m| mv_text(&m)).map_err(|_| ())) {
         Err(pm) => rep.violation(&format!("UciMove::from_str-{}", panic_sig(&pm)), format!("UciMove::from_str({:?}) panicked: {}", tok, pm), json!({"kind":"c15-move","text":tok})),
         Ok(Ok(text)) => {
             // accepted: must be the move the text spells (first 4/5 characters); over-long tokens are unspecified
-            if tok.chars().count() <= 5 && text != tok.to_lowercase() && text != tok {
+            if tok.chars().count() <= 5 && text != tok.to_ascii_lowercase() && text != tok {
                 rep.violation("UciMove::from_str-misread", format!("{:?} read as {}", tok, text), json!({"kind":"c15-move","text":tok}));
             }
         }
